@@ -137,7 +137,7 @@ def generate(prop, rng, tier):
 
 LAYOUTS = ['C'] * 5 + ['F', 'strided', 'strided']
 XPATTERNS = ['rand'] * 6 + ['zero_points', 'zero_points', 'all_zero', 'ties',
-                            'ints', 'one_comp_zero']
+                            'ints', 'one_comp_zero', 'halves', 'unit_norm']
 
 
 def _pattern(x, pat, g):
@@ -159,6 +159,20 @@ def _pattern(x, pat, g):
     elif pat == 'ints':
         for a in arrs:
             a[...] = np.round(2 * a)
+    elif pat == 'halves':
+        # multiples of 0.5: entries exactly at the thresholds lam * sigma the
+        # recipes use (0.5, 1, 2, 2.5)
+        for a in arrs:
+            a[...] = np.round(2 * a) / 2
+    elif pat == 'unit_norm':
+        # exactly on the unit sphere of the space (boundary of the balls)
+        try:
+            nrm = float(x.norm())
+        except Exception:
+            nrm = 0.0
+        if nrm > 0 and np.isfinite(nrm):
+            for a in arrs:
+                a /= nrm
     elif pat == 'zero_points':
         # the same positions in every component of equal shape
         shp = arrs[0].shape
